@@ -280,3 +280,43 @@ fn c12_deeply_nested_masks_stay_inside_the_slot() {
     } } }
     check_in_slot("c12_deeply_nested_masks", progs);
 }
+
+/// a field cut out of call data (or of another slot) is stored, read back from storage in the same run and stored again
+/// (elsewhere, or into the slot it came from); and words loaded from memory after bulk copies of every size are stored —
+/// whatever the types say about each other, every entry lies inside its slot
+#[test]
+fn c12_stored_fields_read_back_and_copied_words_stay_inside_the_slot() {
+    let low = |len: u32| -> U256 { if len >= 256 { U256::MAX } else { (U256::ONE << len) - U256::ONE } };
+    let mut progs: Vec<(String, Vec<u8>)> = vec![];
+    // the same with a field of another SLOT as the source is the recorded finding D28 (a field of slot 7 reaches slot 1 and is read back)
+    let mut d28: Vec<(String, Vec<u8>)> = vec![];
+    for (shift, len) in [(128u16, 128u32), (192, 64), (64, 64), (0, 128), (8, 160), (100, 32), (248, 8)] {
+        for src in [vec![0x60u8, 0x04, 0x35], vec![0x60, 0x07, 0x54], vec![0x33]] {
+            let from_slot = src.last() == Some(&0x54);
+            // v = (src >> shift) & low(len); sstore(1, v); sstore(2, sload(1)); [sstore(1, sload(2))]
+            let mut c = vec![];
+            push_word(&mut c, low(len)); c.extend(&src); push_word(&mut c, U256::from(shift)); c.extend([0x1c, 0x16]);
+            c.extend([0x60, 0x01, 0x55, 0x60, 0x01, 0x54, 0x60, 0x02, 0x55]);
+            let mut two = c.clone(); two.push(0x00);
+            let list = if from_slot { &mut d28 } else { &mut progs };
+            list.push((format!("v = (src >> {shift}) & 2^{len}-1; sstore(1, v); sstore(2, sload(1))"), two));
+            c.extend([0x60, 0x02, 0x54, 0x60, 0x01, 0x55, 0x00]);
+            list.push((format!("v = (src >> {shift}) & 2^{len}-1; sstore(1, v); sstore(2, sload(1)); sstore(1, sload(2))"), c));
+        }
+    }
+    // bulk copies of constant sizes up to far above the single-operation limit, then the first / a middle word is stored
+    for (name, op, nargs) in [("calldatacopy", 0x37u8, 3usize), ("codecopy", 0x39, 3), ("returndatacopy", 0x3e, 3), ("extcodecopy", 0x3c, 4)] {
+        for size in [1u64, 31, 32, 33, 64, 0x200, 1000, 4096, 1 << 16, 1 << 32] {
+            for word in [0u8, 1] {
+                let mut c = vec![];
+                push_word(&mut c, U256::from(size)); c.extend([0x60, 0x04, 0x60, 0x80]);
+                if nargs == 4 { c.push(0x33); }
+                c.push(op);
+                c.extend([0x60, 0x80 + 32 * word, 0x51, 0x60, 0x00, 0x55, 0x00]);
+                progs.push((format!("{name}(0x80, 4, {size}); sstore(0, mload({:#x}))", 0x80 + 32 * word as u32), c));
+            }
+        }
+    }
+    check_in_slot("c12_read_back_and_copies", progs);
+    check_in_slot_as("c12_read_back_of_a_slot_field", "layout.entry_inside_slot.d28_field_of_field_through_storage", d28);
+}
